@@ -63,10 +63,13 @@ func init() {
 			if tier == "thorough" {
 				p = map[string]int{"msgs": 3, "data": 4, "rcpt": 3}
 			}
-			return []HarnessRun{{Name: "outputbatch", Pkg: "internal/outputstream", PkgName: "outputstream",
-				Files: []string{"outputstream/c18.go"}, Entry: "verifHarness_C18_batch", Params: p, Unwind: 12}}
+			return []HarnessRun{
+				{Name: "outputbatch", Pkg: "internal/outputstream", PkgName: "outputstream", Files: []string{"outputstream/c18.go"}, Entry: "verifHarness_C18_batch", Params: p, Unwind: 12},
+				{Name: "message", Pkg: "internal/robust", PkgName: "robust", Files: []string{"robust/c18.go"}, Entry: "verifHarness_C18_message", Unwind: 8},
+				{Name: "raftlog", Pkg: "internal/raftlog", PkgName: "raftlog", Files: []string{"raftlog/c18.go"}, Entry: "verifHarness_C18_raftlog", Unwind: 8},
+			}
 		},
-		Assumptions: []string{"recipient values are true (the only value the server stores)"},
+		Assumptions: []string{"recipient values are true (the only value the server stores)", "protobuf and JSON libraries are an abstract codec for the message and raft-log halves: what is decided there is the hand-written field copying (ProtoMessage, CopyToProtoMessage into a reused destination, NewMessageFromBytes, raftlog.FromBytes)"},
 		Bounds: func(tier string) map[string]interface{} {
 			if tier == "thorough" {
 				return map[string]interface{}{"messages": 3, "data_bytes": 4, "recipients": 3}
@@ -74,7 +77,7 @@ func init() {
 			return map[string]interface{}{"messages": 2, "data_bytes": 3, "recipients": 2}
 		},
 		Outside:   []string{"protobuf and JSON wire formats (reflection-driven libraries)", "longer payloads / more messages than the bound"},
-		Functions: []string{"outputstream.(*messageBatch).marshal", "outputstream.unmarshalMessageBatch", "encoding/binary.littleEndian.PutUint64", "encoding/binary.littleEndian.Uint64"},
+		Functions: []string{"outputstream.(*messageBatch).marshal", "outputstream.unmarshalMessageBatch", "encoding/binary.littleEndian.PutUint64", "encoding/binary.littleEndian.Uint64", "robust.(*Message).ProtoMessage", "robust.(*Message).CopyToProtoMessage", "robust.NewMessageFromBytes", "raftlog.FromBytes"},
 		Rule:      "one case per (message count, recipient counts, payload lengths); non-trivial when the round-trip assertions are reached",
 	})
 
@@ -164,7 +167,7 @@ func init() {
 	registerCheck(&CheckDef{
 		ID: "C03",
 		Runs: func(tier string) []HarnessRun {
-			base := map[string]int{"S": 2, "C": 1, "L": 4, "secretnil": 1, "cfgmaps": 1}
+			base := map[string]int{"S": 2, "C": 1, "L": 4, "secretnil": 1, "cfgmaps": 1, "bans": 2}
 			if tier == "thorough" {
 				base = map[string]int{"S": 3, "C": 2, "L": 5, "link": 1, "P": 1, "secretnil": 1, "cfgmaps": 1, "bans": 2}
 			}
@@ -375,7 +378,7 @@ func init() {
 			return []HarnessRun{
 				apiRun("post-config", "verifHarness_C16_post", map[string]int{"authlen": 3}),
 				{Name: "apply-config", Pkg: "", PkgName: "main", Files: []string{"main/c16.go", "main/c07.go"}, SymFiles: []string{"main/tmp_sym.go"}, NatFiles: []string{"main/tmp_native.go"},
-					Entry: "verifHarness_C16_apply", Unwind: 8, Redirect: map[string]string{repoMod + "/internal/config.FromString": "verifStub_configFromString"}, NoReplay: true},
+					Entry: "verifHarness_C16_apply", Unwind: 8, Redirect: map[string]string{"github.com/BurntSushi/toml.Decode": "verifStub_tomlDecode"}, NoReplay: true},
 			}
 		},
 		Assumptions: []string{"the TOML decoder is a function of its input (stub returning an arbitrary configuration or an error)", "raft replaced by a recording stub", "serialization of the configuration is C03's obligation (incl. the WhitelistedOrigins finding); GLINE's write to Config.Banned is checked by C13"},
